@@ -227,10 +227,54 @@ TIME = st.builds(lambda h, mi, s, ms, off: ["time", h, mi, s, ms * 1000, off], s
 
 
 def scalar_st(t, markup=True):
+    if LEX_MODE[0]:
+        return lex_scalar_st(t)
+    return _scalar_st(t, markup)
+
+
+# Document mode (C03): scalars are *lexical descriptions* - the text that goes into the document is
+# rendered from them by docgen, the expected typed value is computed from them by reftypes.
+LEX_MODE = [False]
+
+
+def lex_scalar_st(t):
+    from ofxtools import Types
+    from pbt.checks.c09 import read_case
+
+    if isinstance(t, Types.ListElement):
+        return lex_scalar_st(t.converter)
+    if isinstance(t, Types.Bool):
+        return st.booleans().map(lambda b: ["bool", b])
+    if isinstance(t, Types.String):
+        return st.builds(lambda s, style: ["str", s, style], string_st(t.length, True), st.integers(0, 3))
+    if isinstance(t, Types.OneOf):
+        return st.sampled_from(list(t.valid)).map(lambda s: ["tok", s])
+    if isinstance(t, Types.Integer):
+        return int_st(t.length).map(lambda n: ["int", n])
+    if isinstance(t, Types.Decimal):
+        k = None if t.scale is None else -t.scale.as_tuple().exponent
+        # with a fixed scale the document may carry more or fewer places than the scale
+        return st.builds(lambda s, sep, plus: ["dec", s, sep, plus and not s.startswith("-"), k], dec_text_st(None), st.sampled_from([".", ","]), st.booleans())
+    if isinstance(t, Types.Time):
+        return read_case(timekind=True).map(_no_tzonly).map(lambda f: ["timex", f])
+    if isinstance(t, Types.DateTime):
+        return read_case(timekind=False).map(_no_tzonly).map(lambda f: ["dtx", f])
+    raise H.HarnessError(f"no lexical strategy for {t!r}")
+
+
+def _no_tzonly(f):
+    f = dict(f)
+    f.pop("kind", None)
+    if f.pop("tzonly", None):
+        f.update(sign="signed", mins="auto", name="EST")
+    return f
+
+
+def _scalar_st(t, markup=True):
     from ofxtools import Types
 
     if isinstance(t, Types.ListElement):
-        return scalar_st(t.converter, markup)
+        return _scalar_st(t.converter, markup)
     if isinstance(t, Types.Bool):
         return st.booleans().map(lambda b: ["bool", b])
     if isinstance(t, Types.String):  # incl. NagString
@@ -387,6 +431,12 @@ def _fix_tax1099misc(desc, draw, depth, markup):
         desc["list"] = [m for m in desc["list"] if m["cls"] != "ADDLSTTAXWHAGG"]
 
 
+def _fix_tax1099intdiv(desc, draw, depth, markup):
+    # FORCNT and FORINCOME (a repeated child) exclude each other
+    if "forcnt" in desc["kw"]:
+        desc["list"] = [m for m in desc["list"] if m["cls"] != "FORINCOME"]
+
+
 def _fix_tax1099r(desc, draw, depth, markup):
     kw = desc["kw"]
     cls = universe()["TAX1099R_V100"]
@@ -431,6 +481,8 @@ FIXERS = {
     "SONRQ": _fix_sonrq,
     "TAX1099MISC_V100": _fix_tax1099misc,
     "TAX1099R_V100": _fix_tax1099r,
+    "TAX1099INT_V100": _fix_tax1099intdiv,
+    "TAX1099DIV_V100": _fix_tax1099intdiv,
     "TAX1099RS": _fix_tax1099rs,
     "TAX1099MSGSRQV1": _need_member,
     "TAX1099MSGSRSV1": _need_member,
